@@ -300,7 +300,7 @@ Proof.
 Qed.
 
 (** ** hyphen ranges *)
-Lemma hyphen_row lo hi v : match lo with Some l => partial_dom l | None => True end -> partial_dom hi ->
+Lemma hyphen_row lo hi v : partial_dom lo -> partial_dom hi ->
   row_opt (hyphen_tbl lo hi) (desugar_hyphen lo hi) v.
 Proof.
   destruct hi as [ma mi pa pr bl]. unfold partial_dom, partial_norm, opt_le_max; cbn [p_major p_minor p_patch p_pre p_build].
@@ -315,20 +315,14 @@ Proof.
     2:{ rewrite (N2 eq_refl) in *. apply (rowopt_gte_lt lw lw' _ v S). }
     destruct pa as [q|]; [|apply (rowopt_gte_lt lw lw' _ v S)].
     apply (rowopt_gte_lte lw lw' (mkV M m q [] pr) (mkV M m q bl pr) v S). sv. }
-  unfold hyphen_tbl, desugar_hyphen. destruct lo as [[lma lmi lpa lpr lbl]|].
-  - destruct Hlo as ((M1 & M2 & M3) & _). cbn [p_major p_minor p_patch p_pre p_build] in *.
-    unfold hyphen_lower, partial_into, unwrap0, vfull; cbn [p_major p_minor p_patch p_pre p_build].
-    destruct lma as [A|].
-    2:{ rewrite (M1 eq_refl) in *. rewrite (M2 eq_refl) in *. destruct (M3 eq_refl) as [-> ->]. cbn [app]. apply Hup. sv. }
-    destruct lmi as [B|].
-    2:{ rewrite (M2 eq_refl) in *. destruct (M3 eq_refl) as [-> ->]. cbn [app]. apply Hup. sv. }
-    destruct lpa as [C|]; [|destruct (M3 eq_refl) as [-> ->]]; cbn [app]; apply Hup; sv.
-  - unfold hyphen_upper, hyphen_upper_c, pred_is_unbounded, partial_into, unwrap0, vfull, ANY; cbn [p_major p_minor p_patch p_pre p_build].
-    destruct ma as [M|].
-    2:{ rewrite (N1 eq_refl) in *. rewrite (N2 eq_refl) in *. apply row_ok_opt. row. }
-    destruct mi as [m|].
-    2:{ rewrite (N2 eq_refl) in *. apply row_ok_opt. row. }
-    destruct pa as [q|]; apply row_ok_opt; row.
+  unfold hyphen_tbl, desugar_hyphen. destruct lo as [lma lmi lpa lpr lbl].
+  destruct Hlo as ((M1 & M2 & M3) & _). cbn [p_major p_minor p_patch p_pre p_build] in *.
+  unfold hyphen_lower, partial_into, unwrap0, vfull; cbn [p_major p_minor p_patch p_pre p_build].
+  destruct lma as [A|].
+  2:{ rewrite (M1 eq_refl) in *. rewrite (M2 eq_refl) in *. destruct (M3 eq_refl) as [-> ->]. cbn [app]. apply Hup. sv. }
+  destruct lmi as [B|].
+  2:{ rewrite (M2 eq_refl) in *. destruct (M3 eq_refl) as [-> ->]. cbn [app]. apply Hup. sv. }
+  destruct lpa as [C|]; [|destruct (M3 eq_refl) as [-> ->]]; cbn [app]; apply Hup; sv.
 Qed.
 
 Lemma row_opt_sat o D v : row_opt o D v ->
